@@ -44,7 +44,9 @@ def build(case):
     by_key = {}
     for i in range(n):
         seq = []
-        if fails[i] == "task":
+        if case.get("inner_catch") == i:
+            seq = [{"err": "Inner", "msg": "caught inside the branch", "delay": 0}]
+        elif fails[i] == "task":
             nf = case.get("fail_attempts", 99)
             seq = [{"err": "Err%d" % i, "msg": "boom", "delay": delays[i]}] * min(nf, 6)
             if nf < 99:
@@ -60,12 +62,21 @@ def build(case):
         """states of branch i; selector = Parameters for the first Task (how it learns its index)"""
         states, first = {}, prefix + "T"
         task = dict({"Type": "Task", "Resource": fn("item")}, **selector)
+        if case.get("long_form"):
+            task["Resource"] = "arn:aws:states:local::rpcmessage:invoke"
+            task["Parameters"] = {"FunctionName": fn("item"), "Payload": selector.get("Parameters", {})}
         if fails[i] == "timeout":
             task["TimeoutSeconds"] = 2
         if fails[i] == "failstate":
             states[prefix + "T"] = {"Type": "Fail", "Error": "Err%d" % i, "Cause": "branch %d" % i}
         elif fails[i] == "runtime":
             states[prefix + "T"] = {"Type": "Pass", "InputPath": "$.does.not.exist", "End": True}
+        elif case.get("inner_catch") == i:
+            # this branch's Task fails but the failure is caught inside the branch; its (slow) successor is still running when a peer fails
+            task["Catch"] = [{"ErrorEquals": ["States.ALL"], "Next": prefix + "U", "ResultPath": "$.inner"}]
+            task["End"] = True
+            states[prefix + "U"] = {"Type": "Task", "Resource": fn("item2"), "End": True}
+            states[prefix + "T"] = task
         else:
             if case.get("two"):
                 task["Next"] = prefix + "U"
@@ -204,6 +215,10 @@ def cases():
              "outer": draw(st.integers(0, 3)) == 0, "outer_catch": draw(st.booleans())}
         if kind == "map":
             c["mc"] = draw(st.sampled_from([None, 0, 1, 2]))
+        c["long_form"] = kind == "parallel" and draw(st.integers(0, 3)) == 0
+        free = [i for i in range(n) if not fails[i]]
+        if kind == "parallel" and free and any(fails) and draw(st.integers(0, 2)) == 0:
+            c["inner_catch"] = draw(st.sampled_from(free))
         h = draw(st.sampled_from(["none", "none", "catch", "catch", "retry-ok", "retry-exhaust", "retry+catch"]))
         names = draw(st.sampled_from([["States.ALL"], ["States.ALL"], ["Err0", "Err1", "Err2", "Err3", "States.Timeout"]]))
         if h in ("catch", "retry+catch"):
